@@ -757,12 +757,85 @@ class FuncTranslator:
         return f"def {fd.name} {params} : {ret} :=\n{text}\n", self.may_raise
 
 
+def _parse_for(t, tok, var):
+    """(lean statement parsing token `tok` into `var`, expression to pass) for a parameter of type t"""
+    if t == "int":
+        return f"let {var} ← parseInt? {tok}", var
+    if t == ("list", "int"):
+        return f"let {var} ← parseInts? {tok}", var
+    if t == "arr2":
+        return (f"let {var} ← parseRatss? {tok}",
+                f"(Py.Arr2.ofLists {var} (({var}.headD []).length) : Py.Arr2 Rat)")
+    if t == "sov":
+        return (f"let {var} ← (match {tok}.splitOn \":\" with\n"
+                f"        | [\"s\", v] => (parseRat? v).map Py.ScalarOrVec.scalar\n"
+                f"        | [\"v\", v] => (parseRats? v).map (fun l => Py.ScalarOrVec.vec (Py.Arr1.ofList l))\n"
+                f"        | _ => none)", var)
+    raise Unsupported(f"no protocol form for parameter type {t}")
+
+
+def _show_for(t):
+    if t == "int":
+        return "(fun (x : Int) => toString x)"
+    if t == "rat":
+        return "showRat"
+    if t == ("list", "int"):
+        return "showInts"
+    if t == ("list", ("list", "int")):
+        return "showIntss"
+    if t == ("list", ("tuple", "int", "int")):
+        return "(showList (fun (p : Int × Int) => s!\"{p.1}:{p.2}\") \",\")"
+    if t == ("tuple", ("list", "int"), ("list", "int")):
+        return "(fun (p : List Int × List Int) => showInts p.1 ++ \" \" ++ showInts p.2)"
+    if t == "arr1":
+        return "(fun (a : Py.Arr1 Rat) => showRats a.toList)"
+    if t == "arr2":
+        return "(fun (a : Py.Arr2 Rat) => showRatss a.toLists)"
+    if t == ("tuple", ("list", "int"), "scalar"):
+        return "(fun (p : List Int × Rat) => showInts p.1 ++ \" \" ++ showRat p.2)"
+    raise Unsupported(f"no protocol form for result type {t}")
+
+
+def exec_wrappers(available, known):
+    """`GenExec.run name args`: the translated functions behind the driver's string protocol (scalars are `Rat`)."""
+    arms = []
+    for spec in SPECS:
+        name = spec["func"]
+        if name not in available:
+            continue
+        toks = [f"a{k}" for k in range(len(spec["params"]))]
+        lets, passed = [], []
+        for k, (pn, pt) in enumerate(spec["params"].items()):
+            st, ex = _parse_for(pt, toks[k], f"x{k}")
+            lets.append(st)
+            passed.append(ex)
+        call = f"Gen.{name} " + " ".join(passed)
+        if spec.get("scalar") or spec.get("ones"):
+            call = f"Gen.{name} (α := Rat) " + " ".join(passed)
+        show = _show_for(spec["ret"])
+        may_raise = known[name][2]
+        if may_raise:
+            out = f"(match {call} with | .ok v => \"ok \" ++ {show} v | .error e => \"err \" ++ e)"
+        else:
+            out = f"(\"ok \" ++ {show} ({call}))"
+        body = "\n      ".join(lets + [f"pure {out}"])
+        arms.append(f"  | \"{name}\", [{', '.join(toks)}] => do\n      {body}")
+    arms.append("  | _, _ => none")
+    names = ", ".join(f"\"{n}\"" for n in available)
+    return ("namespace FastTicc.GenExec\nopen FastTicc FastTicc.Proto\n\n"
+            "/-- the translated functions behind the model driver's line protocol -/\n"
+            "def run (name : String) (args : List String) : Option String :=\n  match name, args with\n"
+            + "\n".join(arms) + "\n\n"
+            f"def available : List String := [{names}]\n\nend FastTicc.GenExec\n")
+
+
 HEADER = """/-
 GENERATED by harness/py2lean.py from the Python source under $REPO/src/fast_ticc on every run.
 Shallow translation of the listed functions, statement by statement, over the primitives of Model/Py.lean.
 Do not edit by hand.  (Functions the translator could not handle are listed at the end as comments.)
 -/
 import FastTicc.Model.Py
+import FastTicc.Model.Proto
 namespace FastTicc.Gen
 open FastTicc
 
@@ -772,15 +845,18 @@ SCALAR_VARS = "variable {α : Type} [Zero α] [Add α] [Sub α] [LT α] [Decidab
 ONES_VARS = "variable {α : Type} [Zero α] [One α]\n"
 
 
-def translate_all(repo):
+def translate_all(repo, exclude=None):
     """returns (lean text, list of available function names, dict name -> reason for the unavailable ones)"""
     trees = {}
     known = {}
     chunks, available, unavailable = [], [], {}
+    exclude = exclude or {}
     for spec in SPECS:
         path = os.path.join(repo, SRC, spec["file"])
         name = spec["func"]
         try:
+            if name in exclude:
+                raise Unsupported(exclude[name])
             if path not in trees:
                 trees[path] = ast.parse(open(path).read())
             fdefs = [n for n in trees[path].body if isinstance(n, ast.FunctionDef) and n.name == name]
@@ -799,20 +875,73 @@ def translate_all(repo):
             available.append(name)
         except (Unsupported, OSError, SyntaxError) as ex:
             unavailable[name] = str(ex)
-    text = HEADER + "\n".join(chunks) + "\nend FastTicc.Gen\n"
+    text = HEADER + "\n".join(chunks) + "\nend FastTicc.Gen\n\n" + exec_wrappers(available, known)
     if unavailable:
         text += "\n/- not translated:\n" + "\n".join(f"  {k}: {v}" for k, v in unavailable.items()) + "\n-/\n"
     return text, available, unavailable
 
 
+def _typecheck(text, lean_dir):
+    """compile the generated text on its own; returns (ok, {function name: message} for the definitions in error)"""
+    import subprocess
+    tmpdir = os.path.join(lean_dir, ".lake")
+    os.makedirs(tmpdir, exist_ok=True)
+    tmp = os.path.join(tmpdir, f"kernels_try_{os.getpid()}.lean")
+    with open(tmp, "w") as f:
+        f.write(text)
+    try:
+        subprocess.run(["lake", "build", "FastTicc.Model.Py", "FastTicc.Model.Proto"], cwd=lean_dir,
+                       capture_output=True, text=True)
+        p = subprocess.run(["lake", "env", "lean", tmp], cwd=lean_dir, capture_output=True, text=True)
+    finally:
+        try:
+            os.unlink(tmp)
+        except OSError:
+            pass
+    if p.returncode == 0:
+        return True, {}
+    lines = text.split("\n")
+    starts = []          # (line number, function name) of every translated definition and wrapper arm
+    for i, l in enumerate(lines, 1):
+        m = re.match(r"def (\w+) ", l)
+        if m:
+            starts.append((i, m.group(1)))
+        m = re.match(r'  \| "(\w+)", \[', l)
+        if m:
+            starts.append((i, m.group(1)))
+    bad = {}
+    names = {s["func"] for s in SPECS}
+    for m in re.finditer(r":(\d+):\d+: error:? ?(.*)", p.stdout + p.stderr):
+        ln = int(m.group(1))
+        owner = None
+        for (i, n) in starts:
+            if i <= ln:
+                owner = n
+        if owner in names:
+            bad.setdefault(owner, "generated Lean does not type-check: " + m.group(2)[:160])
+    if not bad:          # cannot attribute the error: give up on every function
+        bad = {n: "generated Lean does not compile" for n in names}
+    return False, bad
+
+
 def regenerate(repo, lean_dir):
-    text, available, unavailable = translate_all(repo)
+    """rewrite Generated/Kernels.lean from the current source.  A function whose translation fails, or whose
+    generated text does not type-check, is left out and reported as unavailable (never an alarm by itself)."""
     path = os.path.join(lean_dir, "FastTicc", "Generated", "Kernels.lean")
     old = None
     try:
         old = open(path).read()
     except OSError:
         pass
+    exclude = {}
+    text, available, unavailable = translate_all(repo, exclude)
+    if text != old:
+        for _ in range(len(SPECS) + 1):
+            ok, bad = _typecheck(text, lean_dir)
+            if ok:
+                break
+            exclude.update(bad)
+            text, available, unavailable = translate_all(repo, exclude)
     changed = old != text
     if changed:
         tmp = path + f".{os.getpid()}.tmp"
